@@ -9,6 +9,17 @@ R13.1  in TaskManager._pilot_state_cb the update that sets a task FAILED is
        explanation it carries is built from the pilot's uid.
 R13.2  TaskManager.add_pilots registers _pilot_state_cb for the pilot state
        metric on every pilot object it is given.
+R13.3  no guard of that update tests whether the ending pilot (or the pilot
+       the task is bound to) is an entry of a manager table from which another
+       method removes entries without taking care of the bound tasks
+       (`self._pilots`, shrunk by remove_pilots): the callback stays
+       registered on a removed pilot and its tasks stay bound to it.
+R13.4  in Pilot._update no call that runs callbacks of another registry
+       (PilotManager._call_pilot_callbacks -> application code) without a
+       try/except around it can run before an invocation of the pilot
+       specific callbacks, among which add_pilots registered _pilot_state_cb:
+       an application callback that raises must not keep the task manager
+       from learning that the pilot ended.
 """
 
 import ast
@@ -113,10 +124,11 @@ def _reads_attr_on(expr, names, attrs):
 class Roles:
     """what an expression of _pilot_state_cb denotes"""
 
-    def __init__(self, f, tvars, pvar):
+    def __init__(self, f, tvars, pvar, pparam=None):
         self.d = Deps(f.node, implicit=False)
         self.tvars = set(tvars)
         self.pvar = pvar
+        self.pparam = pparam
         self.allowed = {}
 
     def _deps(self, expr):
@@ -155,6 +167,13 @@ class Roles:
     def about_pilot(self, e):
         dep = self._deps(e)
         return self.pvar in dep
+
+    def is_pilot_ref(self, e):
+        """the pilot of the iteration, its uid, or (before the loop) what the
+        callback was handed - and nothing of a task"""
+        dep = self._deps(e)
+        return bool(dep & ({self.pvar, self.pparam} - {None})) and \
+            not (dep & self.tvars)
 
 
 def _by_domain(prog, f, roles, atom, pol, final):
@@ -200,9 +219,246 @@ def _by_domain(prog, f, roles, atom, pol, final):
     return None
 
 
+# ------------------------------------------------------------------------------
+# R13.3: membership of the pilot in a manager table
+#
+_SHRINK = ('pop', 'popitem', 'remove', 'discard', 'clear')
+_GROW   = ('add', 'append', 'update', 'setdefault', 'insert', 'extend')
+
+
+def _self_attr(expr):
+    if isinstance(expr, ast.Attribute) and isinstance(expr.value, ast.Name) \
+            and expr.value.id == 'self':
+        return expr.attr
+    return None
+
+
+def table_of(prog, f, expr, depth=0):
+    """X when expr denotes the table self.X of the manager, its keys / values
+    or a copy of them - directly, through a local assigned once, or through a
+    method of the manager all of whose returns do (list_pilots)"""
+    if expr is None or depth > 5:
+        return None
+    a = _self_attr(expr)
+    if a:
+        return a
+    if isinstance(expr, ast.Name):
+        return table_of(prog, f, single_assign(f, expr.id), depth + 1)
+    if isinstance(expr, ast.Call):
+        fn = expr.func
+        if isinstance(fn, ast.Attribute) and not expr.args and \
+                fn.attr in ('keys', 'values', 'copy'):
+            return table_of(prog, f, fn.value, depth + 1)
+        if dotted(fn) in ('list', 'tuple', 'set', 'frozenset', 'sorted',
+                          'dict', 'iter') and len(expr.args) == 1:
+            return table_of(prog, f, expr.args[0], depth + 1)
+        if isinstance(fn, ast.Attribute) and isinstance(fn.value, ast.Name) \
+                and fn.value.id == 'self':
+            m = prog.resolve_call(f, expr)
+            if m is not None and m is not f:
+                rets = [n.value for n in walk(m.node)
+                        if isinstance(n, ast.Return)]
+                if not rets:
+                    return None
+                tabs = {table_of(prog, m, r, depth + 1) for r in rets}
+                if len(tabs) == 1:
+                    return tabs.pop()
+    return None
+
+
+def member_test(prog, f, roles, atom, depth=0):
+    """(X, present) when `atom` holds exactly if the pilot of the iteration -
+    or the pilot the task is bound to, which is the same one where the binding
+    test holds - is (present) / is not (not present) an entry of self.X"""
+
+    def who(e):
+        return roles.is_pilot_ref(e) or roles.is_task_pilot(e)
+
+    def lookup(e, d=0):
+        # self.X.get(<pilot>) / self.X[<pilot>] through a local assigned once
+        if isinstance(e, ast.Name) and d < 3:
+            v = single_assign(f, e.id)
+            return lookup(v, d + 1) if v is not None else None
+        if isinstance(e, ast.Call) and isinstance(e.func, ast.Attribute) and \
+                e.func.attr == 'get' and e.args and who(e.args[0]) and \
+                (len(e.args) == 1 or isinstance(e.args[1], ast.Constant)
+                 and not e.args[1].value):
+            return table_of(prog, f, e.func.value)
+        return None
+
+    if depth > 3:
+        return None
+    if isinstance(atom, ast.Name):
+        v = single_assign(f, atom.id)
+        if v is not None:
+            r = member_test(prog, f, roles, v, depth + 1)
+            if r is not None:
+                return r
+    if isinstance(atom, ast.UnaryOp) and isinstance(atom.op, ast.Not):
+        r = member_test(prog, f, roles, atom.operand, depth + 1)
+        return None if r is None else (r[0], not r[1])
+    if isinstance(atom, ast.Compare) and len(atom.ops) == 1:
+        op = atom.ops[0]
+        l, r = atom.left, atom.comparators[0]
+        if isinstance(op, (ast.In, ast.NotIn)) and who(l):
+            t = table_of(prog, f, r)
+            if t:
+                return (t, isinstance(op, ast.In))
+        if isinstance(op, (ast.Is, ast.IsNot, ast.Eq, ast.NotEq)):
+            for a, b in ((l, r), (r, l)):
+                if isinstance(b, ast.Constant) and b.value is None:
+                    t = lookup(a)
+                    if t:
+                        return (t, isinstance(op, (ast.IsNot, ast.NotEq)))
+        return None
+    t = lookup(atom)
+    if t:
+        return (t, True)            # pilot objects are truthy
+    return None
+
+
+def table_mutators(prog, cls, attr):
+    """({method: node} removing entries of self.<attr>, {method: node} adding
+    entries), over the methods of the class and its bases"""
+    shrink, grow = {}, {}
+    for k in prog.mro(cls):
+        for fn in k.methods.values():
+            if prog.find_method(cls, fn.name) is not fn:
+                continue
+            al = set()
+            for n in walk(fn.node, nested=True):
+                if isinstance(n, ast.Assign) and len(n.targets) == 1 and \
+                        isinstance(n.targets[0], ast.Name) and \
+                        _self_attr(n.value) == attr:
+                    al.add(n.targets[0].id)
+
+            def is_tab(e):
+                return _self_attr(e) == attr or \
+                    isinstance(e, ast.Name) and e.id in al
+
+            for n in walk(fn.node, nested=True):
+                if isinstance(n, ast.Delete):
+                    for t in n.targets:
+                        if isinstance(t, ast.Subscript) and is_tab(t.value):
+                            shrink.setdefault(fn, n)
+                elif isinstance(n, ast.Call) and \
+                        isinstance(n.func, ast.Attribute) and \
+                        is_tab(n.func.value):
+                    if n.func.attr in _SHRINK:
+                        shrink.setdefault(fn, n)
+                    elif n.func.attr in _GROW:
+                        grow.setdefault(fn, n)
+                elif isinstance(n, (ast.Assign, ast.AugAssign)):
+                    ts = n.targets if isinstance(n, ast.Assign) else [n.target]
+                    for t in ts:
+                        if isinstance(t, ast.Subscript) and is_tab(t.value):
+                            grow.setdefault(fn, n)
+    return shrink, grow
+
+
+def reads_attrs(prog, fn, attrs, depth=0, seen=None):
+    """fn (or a method of the same object it calls, two levels) reads one of
+    the self attributes `attrs`"""
+    seen = set() if seen is None else seen
+    if fn in seen:
+        return False
+    seen.add(fn)
+    for n in walk(fn.node, nested=True):
+        if _self_attr(n) in attrs:
+            return True
+    if depth < 2:
+        for c in calls_in(fn.node, nested=True):
+            if isinstance(c.func, ast.Attribute) and \
+                    isinstance(c.func.value, ast.Name) and \
+                    c.func.value.id == 'self':
+                m = prog.resolve_call(fn, c)
+                if m is not None and reads_attrs(prog, m, attrs, depth + 1,
+                                                 seen):
+                    return True
+    return False
+
+
+def r13_3(prog, rep, f, rid, ctext, call, members, task_attrs):
+    """members: [(atom, pol, (X, present))] - guards of the FAILED update
+    which test the membership of the pilot in self.X"""
+    if not members:
+        rep.ok(rid, f, '%s: no guard of `%s` tests whether the ending pilot '
+               'is an entry of a table of the manager' % (f.qual, ctext),
+               f.loc(call))
+        return
+    regf = prog.find_method(f.cls, 'add_pilots')
+    for atom, pol, (attr, present) in members:
+        shrink, grow = table_mutators(prog, f.cls, attr)
+        shrink.pop(f, None)
+        need_present = (pol == present)
+        grown = regf is not None and regf in grow
+        if need_present and shrink:
+            caring = [m for m in shrink if failing_updates_safe(prog, m) or
+                      reads_attrs(prog, m, task_attrs)]
+            if caring:
+                raise AnalysisError(
+                    'UNRECOGNISED-IDIOM %s: `%s` is guarded by `%s`, a test '
+                    'of the pilot being an entry of self.%s; %s removes '
+                    'entries and also handles tasks: cannot decide whether '
+                    'the tasks of a removed pilot are taken care of'
+                    % (f.where, ctext, short(atom, 60), attr,
+                       caring[0].qual))
+            m = sorted(shrink, key=lambda x: x.qual)[0]
+            rep.bad(rid, f, '%s [membership in self.%s]' % (ctext, attr),
+                    '%s: the FAILED update `%s` only goes ahead when `%s` is '
+                    '%s, i.e. when the ending pilot is still an entry of '
+                    'self.%s; %s removes entries (`%s`) without touching the '
+                    'tasks (%s), so tasks stay bound to a removed pilot, the '
+                    'callback stays registered on it, and when it ends those '
+                    'tasks are never reported FAILED'
+                    % (f.qual, ctext, short(atom, 60), pol, attr, m.qual,
+                       short(shrink[m], 50),
+                       ', '.join('self.' + a for a in sorted(task_attrs))),
+                    f.loc(atom),
+                    history='pilots p1, p2 added; task t1 is bound to p1 and '
+                    'executing; %s(p1) drops p1 from self.%s, t1 stays bound; '
+                    'p1 FAILS: the callback skips p1, t1 stays non-final '
+                    'forever (wait_tasks hangs)' % (m.name, attr))
+        elif need_present and grown:
+            rep.ok(rid, f, '%s: `%s` tests membership in self.%s, which %s '
+                   'fills for every pilot it registers the callback on and '
+                   'which no method shrinks' % (f.qual, short(atom, 50), attr,
+                                                regf.qual), f.loc(atom))
+        elif not need_present and grown:
+            rep.bad(rid, f, '%s [membership in self.%s]' % (ctext, attr),
+                    '%s: the FAILED update `%s` only goes ahead when `%s` is '
+                    '%s, i.e. when the ending pilot is NOT an entry of '
+                    'self.%s, but %s enters every pilot it registers the '
+                    'callback on: the tasks of a pilot of this manager are '
+                    'not failed when it ends'
+                    % (f.qual, ctext, short(atom, 60), pol, attr, regf.qual),
+                    f.loc(atom),
+                    history='pilot p1 added, task t1 bound to it; p1 FAILS: '
+                    'p1 is an entry of self.%s, the callback skips it, t1 '
+                    'stays non-final' % attr)
+        else:
+            raise AnalysisError(
+                'UNRECOGNISED-IDIOM %s: `%s` is guarded by `%s` (taken when '
+                '%s), a test of the pilot being an entry of self.%s, for '
+                'which neither a removing method nor the entry made by '
+                'add_pilots is found' % (f.where, ctext, short(atom, 60), pol,
+                                         attr))
+
+
+def failing_updates_safe(prog, fn):
+    try:
+        return bool(failing_updates(prog, fn, prog.const('states.py',
+                                                         'FAILED')))
+    except AnalysisError:
+        return True
+
+
 def classify(prog, f, roles, atom, pol, final):
-    """(kind, verdict, text): kind in binding / nonfinal / pilotfinal / other /
-    None (unrelated); verdict 'ok' | 'wrong' | 'unknown'"""
+    """(kind, verdict, text): kind in binding / nonfinal / pilotfinal / member /
+    other / None (unrelated); verdict 'ok' | 'wrong' | 'unknown'"""
+    m = member_test(prog, f, roles, atom)
+    if m is not None:
+        return ('member', 'member', m)
     if isinstance(atom, (ast.Name, ast.Attribute, ast.Constant)):
         # a bare truth test (`if state:`, `if task.pilot:`) says nothing about
         # finality or about which pilot the task is bound to
@@ -301,15 +557,30 @@ def r13_1(prog, rep, f, rid='R13.1'):
         for cond in conds:
             for c, pol in _conj(cond, True):
                 atoms.append((c, pol))
+        # the same for the loop over the pilots: its conditions speak about
+        # the element of the filter, which is the pilot of the iteration
+        pmore, pconds = iterable_guards(f, g, ploop.ast.iter, ploop.id)
+        for cond in pconds:
+            for c, pol in _conj(_rename(cond, pmore, pvar), True):
+                atoms.append((c, pol))
         start = loop_slice(g, ploop.id)[0]
         for tid, lab in guards(g, node.id, start=start):
             atoms.append((g.nodes[tid].ast, lab == 'T'))
-        roles = Roles(f, tvars, pvar)
-        found = {'binding': [], 'nonfinal': [], 'pilotfinal': [], 'other': []}
+        roles = Roles(f, tvars, pvar, params[0])
+        found = {'binding': [], 'nonfinal': [], 'pilotfinal': [], 'other': [],
+                 'member': []}
         for atom, pol in atoms:
             kind, verdict, text = classify(prog, f, roles, atom, pol, final)
             if kind:
                 found[kind].append((atom, pol, verdict, text))
+        # guards between the entry of the callback and the loop over the
+        # pilots: only tests of what the callback was handed being an entry of
+        # a manager table matter here
+        for tid, lab in guards(g, ploop.id):
+            atom = g.nodes[tid].ast
+            m = member_test(prog, f, roles, atom)
+            if m is not None:
+                found['member'].append((atom, lab == 'T', 'member', m))
         for kind in found:
             unk = [x for x in found[kind] if x[2] == 'unknown']
             if unk and not any(x[2] == 'wrong' for x in found[kind]):
@@ -373,8 +644,13 @@ def r13_1(prog, rep, f, rid='R13.1'):
                         '%s: the FAILED update `%s` is not control dependent '
                         'on %s: %s' % (f.qual, ctext, what, effect),
                         f.loc(call), history=hist)
-        for atom, pol, verdict, text in found['other']:
-            pass                      # unknown ones raised above
+        # R13.3: membership of the pilot in a table that shrinks
+        task_attrs = {x.split('.', 1)[1] for x in
+                      roles.d.expr_depends(tloop.ast.iter)
+                      if x.startswith('self.') and x.count('.') == 1
+                      and '[' not in x}
+        r13_3(prog, rep, f, 'R13.3' if rid == 'R13.1' else rid, ctext, call,
+              [(a, p, m) for a, p, _, m in found['member']], task_attrs)
         # the explanation names the pilot
         named = False
         for dl in dicts:
@@ -569,11 +845,23 @@ def r13_2(prog, rep, rid='R13.2'):
         extra = []
         for tid, lab in guards(g, node.id, start=start):
             a = g.nodes[tid].ast
+            # the test may be held by a local assigned once (def-use, not
+            # position): `is_dict = isinstance(pilot, dict); if is_dict:`
+            hops = 0
+            while isinstance(a, ast.Name) and hops < 3:
+                v = single_assign(f, a.id)
+                # ... computed in the same iteration of the loop
+                if v is None or not any(n is v for n in walk(head.ast)):
+                    break
+                a, hops = v, hops + 1
+            pol = (lab == 'T')
+            while isinstance(a, ast.UnaryOp) and isinstance(a.op, ast.Not):
+                a, pol = a.operand, not pol
             if isinstance(a, ast.Call) and dotted(a.func) == 'isinstance' and \
                     len(a.args) == 2 and unparse(a.args[0]) == pvar and \
-                    'dict' in unparse(a.args[1]) and lab == 'F':
+                    'dict' in unparse(a.args[1]) and not pol:
                 continue
-            extra.append((a, lab))
+            extra.append((g.nodes[tid].ast, lab))
         why = ''
         if not recv_ok:
             why = 'is not made on the loop variable %r' % pvar
@@ -616,6 +904,238 @@ def r13_2(prog, rep, rid='R13.2'):
 
 
 # ------------------------------------------------------------------------------
+# R13.4: nothing that runs foreign callbacks unprotected precedes the
+#        invocation of the pilot specific callbacks in Pilot._update
+#
+_BROAD = ('Exception', 'BaseException')
+_CONTAINER_NAMES = set(dir(dict)) | set(dir(list)) | set(dir(set)) | \
+    set(dir(str))
+
+
+def _parents(fnode):
+    par = {}
+    for n in ast.walk(fnode):
+        for c in ast.iter_child_nodes(n):
+            par[id(c)] = n
+    return par
+
+
+def _protected(fn, par, call):
+    """the call sits in the body of a try one of whose handlers catches
+    Exception or more and does not raise again"""
+    n = call
+    while id(n) in par and n is not fn.node:
+        p = par[id(n)]
+        if isinstance(p, ast.Try) and any(n is x for x in p.body):
+            for h in p.handlers:
+                if h.type is None:
+                    names = [None]
+                elif isinstance(h.type, ast.Tuple):
+                    names = [unparse(e) for e in h.type.elts]
+                else:
+                    names = [unparse(h.type)]
+                if any(x is None or x.split('.')[-1] in _BROAD
+                       for x in names):
+                    if not any(isinstance(x, ast.Raise)
+                               for st in h.body for x in walk(st)):
+                        return True
+                    break
+        n = p
+    return False
+
+
+def _data_name(fn, name, seen):
+    """the local `name` holds a value taken out of data (element of a loop,
+    subscript, .get(), parameter) - not a function of the program"""
+    if name in seen:
+        return False
+    seen.add(name)
+    h = fn
+    while h is not None:
+        if name in h.nested:
+            return False
+        h = h.parent
+    if name in fn.params:
+        return True
+    vals = []
+    for n in walk(fn.node):
+        if isinstance(n, ast.Assign):
+            for t in n.targets:
+                if name in stores_in_target(t):
+                    if not isinstance(t, ast.Name):
+                        return True           # unpacked out of something
+                    vals.append(n.value)
+        elif isinstance(n, ast.NamedExpr):
+            if name in stores_in_target(n.target):
+                vals.append(n.value)
+        elif isinstance(n, (ast.For, ast.comprehension)):
+            if name in stores_in_target(n.target):
+                return True
+    for v in vals:
+        if isinstance(v, ast.Subscript):
+            return True
+        if isinstance(v, ast.Call) and isinstance(v.func, ast.Attribute) and \
+                v.func.attr in ('get', 'pop'):
+            return True
+        if isinstance(v, ast.Name) and _data_name(fn, v.id, seen):
+            return True
+    return False
+
+
+def dynamic_call(fn, call):
+    """the callee is a value out of data: a registered callback"""
+    func = call.func
+    if isinstance(func, ast.Subscript):
+        return True
+    if isinstance(func, ast.Name):
+        return _data_name(fn, func.id, set())
+    return False
+
+
+def _attr_class(prog, cls, attr):
+    """class of the object held by self.<attr>: every assignment in the class
+    is a parameter annotated with a class of the program or a call of one"""
+    out = set()
+    for k in prog.mro(cls):
+        for fn in k.methods.values():
+            ann = {a.arg: a.annotation for a in
+                   fn.node.args.posonlyargs + fn.node.args.args +
+                   fn.node.args.kwonlyargs if a.annotation is not None}
+            for n in walk(fn.node):
+                if not isinstance(n, ast.Assign):
+                    continue
+                if not any(_self_attr(t) == attr for t in n.targets):
+                    continue
+                v = n.value
+                r = None
+                if isinstance(v, ast.Name) and v.id in ann:
+                    r = prog.resolve(fn.module, ann[v.id])
+                elif isinstance(v, ast.Call):
+                    r = prog.resolve(fn.module, v.func)
+                if isinstance(v, ast.Constant) and v.value is None:
+                    continue
+                out.add(r[1] if r and r[0] == 'class' else None)
+    return out.pop() if len(out) == 1 else None
+
+
+def callee_of(prog, fn, call):
+    m = prog.resolve_call(fn, call)
+    if m is not None:
+        return m
+    func = call.func
+    # self.<attr>.<method>(..): by the class of the attribute where that is
+    # known, else by the name of the method if exactly one class has it
+    if isinstance(func, ast.Attribute) and fn.cls is not None and \
+            _self_attr(func.value) is not None:
+        k = _attr_class(prog, fn.cls, func.value.attr)
+        if k is not None:
+            return prog.find_method(k, func.attr)
+        if func.attr in _CONTAINER_NAMES:
+            return None
+        owners = [c for c in prog.all_classes() if func.attr in c.methods]
+        if len(owners) == 1:
+            return owners[0].methods[func.attr]
+    return None
+
+
+def foreign_witness(prog, fn, depth=0, stack=()):
+    """(function, call): a call of a value out of data (a registered
+    callback) that fn runs - itself or through resolved callees - with no
+    try/except Exception around it anywhere on the way"""
+    par = _parents(fn.node)
+    for c in sorted(calls_in(fn.node), key=lambda x: (x.lineno, x.col_offset)):
+        if _protected(fn, par, c):
+            continue
+        if dynamic_call(fn, c):
+            return (fn, c)
+        if depth < 3:
+            m = callee_of(prog, fn, c)
+            if m is not None and m is not fn and m not in stack:
+                w = foreign_witness(prog, m, depth + 1, stack + (fn,))
+                if w is not None:
+                    return w
+    return None
+
+
+def r13_4(prog, rep, rid='R13.4'):
+    rep.rule(rid, 'Pilot._update: no unprotected call that runs callbacks of '
+             'another registry (application code) can run before an '
+             'invocation of the pilot specific callbacks, which carry the '
+             'task manager\'s _pilot_state_cb', minimum=1)
+    reg = prog.method(PILOT[0], PILOT[1], 'register_callback')
+    upd = prog.method(PILOT[0], PILOT[1], '_update')
+    rep.saw(upd)
+    prm = [x for x in reg.params if x != 'self']
+    if not prm:
+        raise AnalysisError('anchor %s takes no callback' % reg.where)
+    dr = Deps(reg.node, implicit=False)
+    registry = {l for l in dr.edges if l.startswith('self.') and
+                prm[0] in dr.closure(l)}
+    if not registry:
+        raise AnalysisError('UNRECOGNISED-IDIOM %s: the callback %r is not '
+                            'stored in an attribute of the pilot'
+                            % (reg.where, prm[0]))
+    g = cfg_of(upd)
+    smap = I.stmt_node_map(g)
+    du = Deps(upd.node, implicit=False)
+    par = _parents(upd.node)
+    calls = [c for c in calls_in(upd.node) if id(c) in smap]
+    own = [c for c in calls if dynamic_call(upd, c) and
+           du.expr_depends(c.func) & registry]
+    if not own:
+        raise AnalysisError('UNRECOGNISED-IDIOM %s: no invocation of a value '
+                            'taken from %s found' % (upd.where,
+                                                     sorted(registry)))
+    # calls which run foreign callbacks, unprotected
+    foreign = []
+    for c in calls:
+        if any(c is o for o in own) or _protected(upd, par, c):
+            continue
+        if dynamic_call(upd, c):
+            foreign.append((c, (upd, c)))
+            continue
+        m = callee_of(prog, upd, c)
+        if m is not None and m is not upd:
+            w = foreign_witness(prog, m, 1, (upd,))
+            if w is not None:
+                foreign.append((c, w))
+    rep.stat('foreign_calls', len(foreign))
+    for o in own:
+        on = smap[id(o)]
+        before = []
+        for c, w in foreign:
+            cn = smap[id(c)]
+            if cn.id != on.id and on.id in g.reachable(cn.id):
+                before.append((c, w))
+        if not before:
+            rep.ok(rid, upd, '%s: no unprotected call that runs foreign '
+                   'callbacks can run before `%s` (%d such call(s) in the '
+                   'function, all behind it)' % (upd.qual, short(o, 50),
+                                                 len(foreign)), upd.loc(o))
+            continue
+        for c, (wf, wc) in before:
+            rep.bad(rid, upd, '%s before %s' % (short(c, 60), short(o, 40)),
+                    '%s: `%s` can run before `%s`, the invocation of the '
+                    'pilot specific callbacks (%s) among which '
+                    'TaskManager.add_pilots registered _pilot_state_cb.  It '
+                    'runs `%s` in %s, a callback registered by the '
+                    'application, and nothing between here and there '
+                    'catches exceptions: a callback that raises unwinds '
+                    '%s before the task manager is told that the pilot '
+                    'ended, and the tasks bound to it are never reported '
+                    'FAILED' % (upd.qual, short(c, 60), short(o, 40),
+                                ', '.join(sorted(registry)), short(wc, 40),
+                                wf.qual, upd.qual),
+                    upd.loc(c),
+                    history='pmgr.register_callback(cb) with cb doing '
+                    'sys.exit(1) (or raising) when the pilot is FAILED, as '
+                    'the shipped examples do; tmgr.add_pilots(p1), task t1 '
+                    'bound to p1 and executing; p1 FAILS: cb raises in the '
+                    'thread that delivers the update, _pilot_state_cb is not '
+                    'called, t1 stays non-final and wait_tasks() hangs')
+
+
+# ------------------------------------------------------------------------------
 #
 def run(prog, rep, tier):
     rep.decided = ('in TaskManager._pilot_state_cb the update that fails a '
@@ -623,10 +1143,20 @@ def run(prog, rep, tier):
         'being final, on `task.pilot == <uid of that pilot>` and on the task '
         'not being final, and its explanation is built from the pilot uid; '
         'TaskManager.add_pilots registers that callback for the pilot state '
-        'metric on every pilot object.')
+        'metric on every pilot object; no guard of the update asks whether '
+        'the pilot is still an entry of a manager table which another method '
+        'shrinks without caring for the bound tasks (remove_pilots / '
+        'self._pilots); in Pilot._update no unprotected call that runs '
+        'callbacks of another registry (the pilot manager\'s application '
+        'callbacks) can run before an invocation of the pilot specific '
+        'callbacks, among which that callback is.')
     rep.undecided = ('nothing of the statement beyond the delivery of pilot '
         'state notifications (C14) and the stickiness of final task states '
-        'inside Task._update (C06).')
+        'inside Task._update (C06).  Not decided: isolation between the '
+        'callbacks of the SAME registry - an application callback registered '
+        'with pilot.register_callback before tmgr.add_pilots runs before '
+        '_pilot_state_cb in Pilot._update and, if it raises, hides it (this '
+        'is how the unchanged tree behaves).')
     rep.assumptions = [
         'Task.pilot is the binding published by the tmgr scheduler '
         '(Task._update copies `pilot` from the state notification)',
@@ -635,16 +1165,28 @@ def run(prog, rep, tier):
         'conditions of a filtering comprehension used as the iterable',
         'dependence of names on `pilot.uid` / `pilot.state` is the '
         'flow-insensitive closure over assignments (no implicit flows)',
+        'R13.3: a method that deletes / pops entries of the table and reads '
+        'neither the task table nor fails tasks leaves the bound tasks bound',
+        'R13.4: a call of a value taken out of data (loop element, subscript, '
+        '.get(), parameter) is a callback of the application and may raise; '
+        'try/except Exception (or broader) without re-raise isolates it; '
+        '`self.<attr>.<m>()` is resolved by the annotated / constructed '
+        'class of the attribute, else by the method name if it is unique in '
+        'the package; library calls run no application code',
     ]
     rep.rule('R13.1', 'the FAILED update in _pilot_state_cb is control '
              'dependent on: pilot final, task bound to that pilot, task not '
              'final; its explanation names the pilot', minimum=4)
+    rep.rule('R13.3', 'no guard of the FAILED update tests the ending pilot '
+             'being an entry of a manager table that another method shrinks '
+             'without taking care of the bound tasks', minimum=1)
     f = prog.method(TMGR[0], TMGR[1], '_pilot_state_cb')
     n = r13_1(prog, rep, f)
     if n < 1:
         raise AnalysisError('R13.1: no `<task>._update({... state: rps.FAILED '
                             '...})` found in %s' % f.where)
     r13_2(prog, rep)
+    r13_4(prog, rep)
     if tier == 'thorough':
         # sweep: the same rule on every other method of the package's manager
         # classes that fails tasks because of a pilot (none today)
@@ -698,7 +1240,79 @@ FIX_F03 = (_TM, _HEAD + "                    update = {'uid'             : task.
            _HEAD + _CMT + _BIND + _NFIN +
            "                    update = {'uid'             : task.uid,\n")
 
+_PFIN = "            if state in rps.FINAL:\n\n                self._log.debug('pilot %s is final', pid)"
+_PLOOP = "        for pilot in pilots:\n\n            pid   = pilot.uid\n            state = pilot.state\n"
+
+_PL = 'pilot.py'
+_CBS = ("        with self._cb_lock:\n"
+        "            for _,cb_val in self._callbacks[rpc.PILOT_STATE].items():\n\n"
+        "                cb      = cb_val['cb']\n"
+        "                cb_data = cb_val['cb_data']\n\n"
+        "                self._log.debug('call %s', cb)\n\n"
+        "                self._log.debug('%s calls cb %s', self.uid, cb)\n\n"
+        "                if cb_data: cb([self], cb_data)\n"
+        "                else      : cb([self])\n\n")
+_PMGR = ("            # ask pmgr to invoke any global callbacks\n"
+         "            self._pmgr._call_pilot_callbacks(self)\n")
+_WITH = "        with self._cb_lock:\n            for _,cb_val in self._callbacks[rpc.PILOT_STATE].items():\n"
+
 MUTATIONS = [
+    dict(name='R13.3 seed C13-c: pilots no longer in self._pilots are skipped',
+         rules=('R13.3',), edits=[
+        (_TM, _PFIN,
+              "            with self._pilots_lock:\n"
+              "                if pid not in self._pilots:\n"
+              "                    self._log.debug('ignore state of unknown pilot %s', pid)\n"
+              "                    continue\n\n" + _PFIN)]),
+    dict(name='R13.3 membership joined to the pilot-final test', rules=('R13.3',), edits=[
+        (_TM, _PFIN, "            if state in rps.FINAL and pid in self._pilots:\n\n"
+                     "                self._log.debug('pilot %s is final', pid)")]),
+    dict(name='R13.3 tasks whose pilot was removed from the tmgr are skipped',
+         rules=('R13.3',), edits=[
+        (_TM, _BIND + _NFIN, _BIND + "                    if task.pilot not in self._pilots:\n                        continue\n\n" + _NFIN)]),
+    dict(name='R13.3 lookup with .get() hoisted into a local', rules=('R13.3',), edits=[
+        (_TM, _PFIN, "            known = self._pilots.get(pid)\n"
+                     "            if known is None:\n"
+                     "                continue\n\n" + _PFIN)]),
+    dict(name='R13.3 membership asked through list_pilots()', rules=('R13.3',), edits=[
+        (_TM, _PFIN, "            if pid not in self.list_pilots():\n"
+                     "                continue\n\n" + _PFIN)]),
+    dict(name='R13.3 removed pilots filtered out of the loop over the pilots',
+         rules=('R13.3',), edits=[
+        (_TM, _PLOOP, "        for pilot in [p for p in pilots if p.uid in self._pilots]:\n\n"
+                      "            pid   = pilot.uid\n            state = pilot.state\n")]),
+    dict(name='R13.3 only pilots which are NOT registered take their tasks down',
+         rules=('R13.3',), edits=[
+        (_TM, _PFIN, "            if pid in self._pilots:\n"
+                     "                continue\n\n" + _PFIN)]),
+    dict(name='R13.4 seed C13-d: pmgr callbacks before the pilot callbacks, outside the lock',
+         rules=('R13.4',), edits=[
+        (_PL, _PMGR, ""),
+        (_PL, _WITH, "        self._pmgr._call_pilot_callbacks(self)\n\n" + _WITH)]),
+    dict(name='R13.4 pmgr callbacks first thing under the lock', rules=('R13.4',), edits=[
+        (_PL, _PMGR, ""),
+        (_PL, _WITH, "        with self._cb_lock:\n"
+                     "            self._pmgr._call_pilot_callbacks(self)\n\n"
+                     "            for _,cb_val in self._callbacks[rpc.PILOT_STATE].items():\n")]),
+    dict(name='R13.4 pmgr callbacks inside the loop, after each pilot callback',
+         rules=('R13.4',), edits=[
+        (_PL, "                else      : cb([self])\n\n" + _PMGR,
+              "                else      : cb([self])\n\n"
+              "                self._pmgr._call_pilot_callbacks(self)\n")],
+         note='the first pilot callback is followed by application code before the second one runs'),
+    dict(name='R13.4 pmgr registry walked inline before the pilot callbacks',
+         rules=('R13.4',), edits=[
+        (_PL, _PMGR, ""),
+        (_PL, _WITH, "        for pcb in self._pmgr._callbacks[rpc.PILOT_STATE].values():\n"
+                     "            pcb['cb']([self])\n\n" + _WITH)]),
+    dict(name='R13.4 pmgr callbacks first, exceptions logged and raised again',
+         rules=('R13.4',), edits=[
+        (_PL, _PMGR, ""),
+        (_PL, _WITH, "        try:\n"
+                     "            self._pmgr._call_pilot_callbacks(self)\n"
+                     "        except Exception:\n"
+                     "            self._log.exception('pmgr callback failed')\n"
+                     "            raise\n\n" + _WITH)]),
     dict(name='R13.1 F03 reverted: binding test removed', rules=('R13.1',), edits=[
         (_TM, _BIND, "")]),
     dict(name='R13.1 F03 reverted: non-final test removed', rules=('R13.1',), edits=[
@@ -847,4 +1461,69 @@ SILENT = [
               "                for task in filter(lambda t: t.pilot == pid and\n"
               "                                   not t.state in rps.FINAL,\n"
               "                                   self._tasks.values()):\n\n")]),
+    dict(name='R13.2 dict test held by a local assigned once', edits=[
+        (_TM, "                if isinstance(pilot, dict):\n                    pilot_dict = pilot\n\n                else:\n",
+              "                is_dict = isinstance(pilot, dict)\n                if is_dict:\n                    pilot_dict = pilot\n\n                else:\n")]),
+    # ---- R13.3: membership tests which do not decide whether tasks are failed
+    dict(name='R13.3 removed pilot only logged, tasks failed all the same', edits=[
+        (_TM, _PFIN, "            with self._pilots_lock:\n"
+                     "                if pid not in self._pilots:\n"
+                     "                    self._log.debug('pilot %s was removed, still fail its tasks', pid)\n\n" + _PFIN)]),
+    dict(name='R13.3 membership computed under the lock and logged', edits=[
+        (_TM, _PFIN, "            with self._pilots_lock:\n"
+                     "                known = pid in self._pilots\n"
+                     "            self._log.debug('pilot %s known: %s', pid, known)\n\n" + _PFIN)]),
+    dict(name='R13.3 membership picks the log level in both branches', edits=[
+        (_TM, _PFIN, "            if self._pilots.get(pid) is None:\n"
+                     "                self._log.warn('removed pilot %s changed state', pid)\n"
+                     "            else:\n"
+                     "                self._log.debug('pilot %s changed state', pid)\n\n" + _PFIN)]),
+    dict(name='R13.3 tasks snapshot taken under the tasks lock', edits=[
+        (_TM, "                tasks = list()\n" + _HEAD,
+              "                with self._tasks_lock:\n"
+              "                    todo = list(self._tasks.values())\n\n"
+              "                tasks = list()\n"
+              "                for task in todo:\n\n")]),
+    # ---- R13.4: rewrites of the dispatch in Pilot._update
+    dict(name='R13.4 dispatch over .values() with one call site, locals renamed', edits=[
+        (_PL, _CBS + _PMGR,
+              "        with self._cb_lock:\n"
+              "            for entry in self._callbacks[rpc.PILOT_STATE].values():\n\n"
+              "                func = entry['cb']\n"
+              "                args = [[self]]\n"
+              "                if entry['cb_data']:\n"
+              "                    args.append(entry['cb_data'])\n\n"
+              "                self._log.debug('%s calls cb %s', self.uid, func)\n"
+              "                func(*args)\n\n" + _PMGR)]),
+    dict(name='R13.4 pmgr callbacks after the loop, outside the lock', edits=[
+        (_PL, _PMGR, "        # ask pmgr to invoke any global callbacks\n"
+                     "        self._pmgr._call_pilot_callbacks(self)\n")]),
+    dict(name='R13.4 callbacks snapshot under the lock, invoked outside of it', edits=[
+        (_PL, _CBS + _PMGR,
+              "        with self._cb_lock:\n"
+              "            todo = list(self._callbacks[rpc.PILOT_STATE].values())\n\n"
+              "        for cb_val in todo:\n\n"
+              "            cb      = cb_val['cb']\n"
+              "            cb_data = cb_val['cb_data']\n\n"
+              "            if cb_data: cb([self], cb_data)\n"
+              "            else      : cb([self])\n\n"
+              "        pmgr = self._pmgr\n"
+              "        pmgr._call_pilot_callbacks(self)\n")]),
+    dict(name='R13.4 pmgr callbacks first but isolated by try/except', edits=[
+        (_PL, _PMGR, ""),
+        (_PL, _WITH, "        try:\n"
+                     "            self._pmgr._call_pilot_callbacks(self)\n"
+                     "        except Exception:\n"
+                     "            self._log.exception('pmgr callback failed')\n\n" + _WITH)],
+         note='order changes, but a raising application callback cannot keep the tmgr callback from running'),
+    dict(name='R13.4 dispatch extracted into a helper method', edits=[
+        (_PL, _CBS + _PMGR,
+              "        self._call_callbacks()\n\n\n"
+              "    # --------------------------------------------------------------------------\n"
+              "    #\n"
+              "    def _call_callbacks(self):\n\n"
+              + _CBS + _PMGR)]),
+    dict(name='R13.4 bound logger method cached in a local before the dispatch', edits=[
+        (_PL, _WITH, "        debug = self._log.debug\n"
+                     "        debug('%s invokes callbacks', self.uid)\n\n" + _WITH)]),
 ]
